@@ -19,6 +19,9 @@ type Profile struct {
 	Churn                                                              int // create/delete subscriptions and topics
 	NoSeek, NoDL, OrderedOnly                                          bool
 	BigAdvance                                                         bool
+	// Frag: only operations of the fragment on which C05 is proved outright (no seek to a snapshot, of the
+	// jobs only those that expire subscriptions or delete acknowledged / expired deliveries)
+	Frag bool
 }
 
 var ProfileAll = Profile{Name: "all", SetDelay: 1, Update: 1, Publish: 5, Pull: 6, Ack: 3, Nack: 2, Delay: 2, Advance: 4, Seek: 1, Snap: 1, Maint: 2, Sweep: 1, Churn: 1}
@@ -292,10 +295,10 @@ func (g *Gen) Next(now int64) Op {
 		}},
 		{p.Snap, func() (Op, bool) {
 			s := g.liveSub()
-			if s == nil || p.NoSeek {
+			if s == nil || (p.NoSeek && !p.Frag) {
 				return Op{}, false
 			}
-			if len(g.Snaps) > 0 && g.R.Intn(2) == 0 {
+			if len(g.Snaps) > 0 && g.R.Intn(2) == 0 && !p.Frag {
 				return Op{Via: g.viaHandler(), K: "seek_snap", Sub: s.name, Snap: g.pick(g.Snaps)}, true
 			}
 			name := fmt.Sprintf("n%d", len(g.Snaps))
@@ -309,6 +312,9 @@ func (g *Gen) Next(now int64) Op {
 		{p.Maint, func() (Op, bool) {
 			k := []string{"expire_subs", "prune_completed_deliveries", "prune_expired_deliveries", "prune_completed_messages",
 				"prune_deleted_sub_deliveries", "prune_deleted_subs", "prune_deleted_topics"}[g.R.Intn(7)]
+			if p.Frag {
+				k = []string{"expire_subs", "prune_completed_deliveries", "prune_expired_deliveries"}[g.R.Intn(3)]
+			}
 			return Op{K: k, Max: 1 + g.R.Intn(5), D: int64(g.R.Intn(4)) * 60 * Sec}, true
 		}},
 		{p.Sweep, func() (Op, bool) {
